@@ -18,7 +18,7 @@ pub const SPEC: Spec = Spec {
     rule: "an untyped combinator DAG of 1..45 nodes: (a) a well-typed program from G-prog with 0-3 structural mutations (combinator swapped, child re-targeted to another node, leaf replaced), (b) a purely random DAG of <= 10 nodes, or (c) a directed shape (occurs-check cycles such as disconnect x x / pair x (take x) / case over iden, doubling chains x -> pair x x / comp x x up to 30 deep, shared nodes used at conflicting types); all combinators, words and Core/Elements jets as typed leaves, witness/fail as free leaves, disconnect with and without branch; constructed in the canonical order and in K further random topological orders (K = 4 quick, 12 thorough), each in a fresh context, stopping at the first constructor error; root finalised as a program or not (drawn). Oracle: model::unify (textbook unification over rational trees + acyclicity check): library accepts <=> finite solution; every node's arrow equals the principal arrow with variables := unit; all orders agree; every error displays within 8 MiB under the fuel limit. Non-trivial: >= 6 nodes, >= 1 binary combinator, and (rejected, or some node type is not unit). Distinct by DAG.",
     design_ref: "§6 C04",
     max_len: 1200,
-    quick_cases: 20_000,
+    quick_cases: 60_000,
     thorough_cases: 400_000,
     hang_is_violation: true,
     fuel: 1 << 23,
